@@ -60,7 +60,7 @@ package varmq
 
 // AddAll: every item is either enqueued once (counted, signalled) or rejected and closed; the handle's counter is the number accepted.
 //@ func queue.AddAll
-//@   props C01 C05 C08 C17 C16
+//@   props C01 C05 C08 C17 C16 C07
 //@   assert [signal-after-bookkeeping] before call invoke.notifyToPullNextJobs: j.job.status == queued
 //@   requires q.externalBaseQueue != nil && q.externalBaseQueue.w != nil && q.internalQueue != nil && len(items) <= MaxUint32
 //@   modifies $usercalls, $alloc, $wgdone[0], $lenOf(q.internalQueue), $enq(q.internalQueue), $lastEnq(q.internalQueue), $submitted, $signals(q.externalBaseQueue.w), $acks, $lastAck
@@ -68,10 +68,13 @@ package varmq
 //@   ensures [signals]  $signals(q.externalBaseQueue.w) - old($signals(q.externalBaseQueue.w)) == $enq(q.internalQueue) - old($enq(q.internalQueue))
 //@   ensures [len]      $lenOf(q.internalQueue) - old($lenOf(q.internalQueue)) == $enq(q.internalQueue) - old($enq(q.internalQueue))
 //@   ensures [handle]   result == $mk(groupJob) && $fresh(groupJob)
+// Submitted counts exactly the accepted items of the batch (a rejected item is never counted, not even transiently kept)
+//@   ensures [submitted] $submitted($metricsOf(q.externalBaseQueue.w)) - old($submitted($metricsOf(q.externalBaseQueue.w))) == $enq(q.internalQueue) - old($enq(q.internalQueue))
 // every item gets a job configuration of its own: one id-generator call and one WithJobId application per item (never a shared or reused one)
 //@   ensures [own-config] $usercalls == old($usercalls) + 2 * len(items)
 //@   loop 1: invariant [range]  0 <= rangeindex + 1 && rangeindex + 1 <= len(items) && RI_Wgc(groupJob.wgc) && $fresh(groupJob) && $fresh(groupJob.wgc)
 //@   loop 1: invariant [own-config] $usercalls == old($usercalls) + 2 * (rangeindex + 1)
+//@   loop 1: invariant [submitted] $submitted($metricsOf(q.externalBaseQueue.w)) - old($submitted($metricsOf(q.externalBaseQueue.w))) == $enq(q.internalQueue) - old($enq(q.internalQueue))
 //@   loop 1: invariant [count]  ($enq(q.internalQueue) - old($enq(q.internalQueue))) + (len(items) - groupJob.wgc.count) == rangeindex + 1
 //@                                && $enq(q.internalQueue) >= old($enq(q.internalQueue)) && groupJob.wgc.count <= len(items)
 //@   loop 1: invariant [effect] $signals(q.externalBaseQueue.w) - old($signals(q.externalBaseQueue.w)) == $enq(q.internalQueue) - old($enq(q.internalQueue))
@@ -102,7 +105,7 @@ package varmq
 //@   ensures [fresh]    $fresh(j)
 
 //@ func errorQueue.AddAll
-//@   props C01 C05 C08 C17 C16
+//@   props C01 C05 C08 C17 C16 C07
 //@   assert [signal-after-bookkeeping] before call invoke.notifyToPullNextJobs: j.errorJob.job.status == queued
 //@   requires q.externalBaseQueue != nil && q.externalBaseQueue.w != nil && q.internalQueue != nil && len(items) <= MaxUint32
 //@   modifies $usercalls, $alloc, $wgdone[0], $lenOf(q.internalQueue), $enq(q.internalQueue), $lastEnq(q.internalQueue), $submitted, $signals(q.externalBaseQueue.w), $acks, $lastAck
@@ -110,11 +113,14 @@ package varmq
 //@   ensures [signals]  $signals(q.externalBaseQueue.w) - old($signals(q.externalBaseQueue.w)) == $enq(q.internalQueue) - old($enq(q.internalQueue))
 //@   ensures [len]      $lenOf(q.internalQueue) - old($lenOf(q.internalQueue)) == $enq(q.internalQueue) - old($enq(q.internalQueue))
 //@   ensures [handle]   result == $mk(groupJob) && $fresh(groupJob)
+// Submitted counts exactly the accepted items of the batch (a rejected item is never counted, not even transiently kept)
+//@   ensures [submitted] $submitted($metricsOf(q.externalBaseQueue.w)) - old($submitted($metricsOf(q.externalBaseQueue.w))) == $enq(q.internalQueue) - old($enq(q.internalQueue))
 // every item gets a job configuration of its own: one id-generator call and one WithJobId application per item (never a shared or reused one)
 //@   ensures [own-config] $usercalls == old($usercalls) + 2 * len(items)
 //@   ensures [stream]   len(items) > 0 ==> (groupJob.wgc.count >= 1 <==> $open(groupJob.errorJob.Response.ch))
 //@   loop 1: invariant [range]  0 <= rangeindex + 1 && rangeindex + 1 <= len(items) && RI_Wgc(groupJob.wgc) && $fresh(groupJob) && $fresh(groupJob.wgc)
 //@   loop 1: invariant [own-config] $usercalls == old($usercalls) + 2 * (rangeindex + 1)
+//@   loop 1: invariant [submitted] $submitted($metricsOf(q.externalBaseQueue.w)) - old($submitted($metricsOf(q.externalBaseQueue.w))) == $enq(q.internalQueue) - old($enq(q.internalQueue))
 //@   loop 1: invariant [count]  ($enq(q.internalQueue) - old($enq(q.internalQueue))) + (len(items) - groupJob.wgc.count) == rangeindex + 1
 //@                                && $enq(q.internalQueue) >= old($enq(q.internalQueue)) && groupJob.wgc.count <= len(items)
 //@   loop 1: invariant [effect] $signals(q.externalBaseQueue.w) - old($signals(q.externalBaseQueue.w)) == $enq(q.internalQueue) - old($enq(q.internalQueue))
@@ -144,7 +150,7 @@ package varmq
 //@   ensures [fresh]    $fresh(j)
 
 //@ func resultQueue.AddAll
-//@   props C01 C05 C08 C17 C16
+//@   props C01 C05 C08 C17 C16 C07
 //@   assert [signal-after-bookkeeping] before call invoke.notifyToPullNextJobs: j.resultJob.job.status == queued
 //@   requires q.externalBaseQueue != nil && q.externalBaseQueue.w != nil && q.internalQueue != nil && len(items) <= MaxUint32
 //@   modifies $usercalls, $alloc, $wgdone[0], $lenOf(q.internalQueue), $enq(q.internalQueue), $lastEnq(q.internalQueue), $submitted, $signals(q.externalBaseQueue.w), $acks, $lastAck
@@ -152,11 +158,14 @@ package varmq
 //@   ensures [signals]  $signals(q.externalBaseQueue.w) - old($signals(q.externalBaseQueue.w)) == $enq(q.internalQueue) - old($enq(q.internalQueue))
 //@   ensures [len]      $lenOf(q.internalQueue) - old($lenOf(q.internalQueue)) == $enq(q.internalQueue) - old($enq(q.internalQueue))
 //@   ensures [handle]   result == $mk(groupJob) && $fresh(groupJob)
+// Submitted counts exactly the accepted items of the batch (a rejected item is never counted, not even transiently kept)
+//@   ensures [submitted] $submitted($metricsOf(q.externalBaseQueue.w)) - old($submitted($metricsOf(q.externalBaseQueue.w))) == $enq(q.internalQueue) - old($enq(q.internalQueue))
 // every item gets a job configuration of its own: one id-generator call and one WithJobId application per item (never a shared or reused one)
 //@   ensures [own-config] $usercalls == old($usercalls) + 2 * len(items)
 //@   ensures [stream]   len(items) > 0 ==> (groupJob.wgc.count >= 1 <==> $open(groupJob.resultJob.Response.ch))
 //@   loop 1: invariant [range]  0 <= rangeindex + 1 && rangeindex + 1 <= len(items) && RI_Wgc(groupJob.wgc) && $fresh(groupJob) && $fresh(groupJob.wgc)
 //@   loop 1: invariant [own-config] $usercalls == old($usercalls) + 2 * (rangeindex + 1)
+//@   loop 1: invariant [submitted] $submitted($metricsOf(q.externalBaseQueue.w)) - old($submitted($metricsOf(q.externalBaseQueue.w))) == $enq(q.internalQueue) - old($enq(q.internalQueue))
 //@   loop 1: invariant [count]  ($enq(q.internalQueue) - old($enq(q.internalQueue))) + (len(items) - groupJob.wgc.count) == rangeindex + 1
 //@                                && $enq(q.internalQueue) >= old($enq(q.internalQueue)) && groupJob.wgc.count <= len(items)
 //@   loop 1: invariant [effect] $signals(q.externalBaseQueue.w) - old($signals(q.externalBaseQueue.w)) == $enq(q.internalQueue) - old($enq(q.internalQueue))
@@ -186,7 +195,7 @@ package varmq
 //@   ensures [fresh]    $fresh(j)
 
 //@ func priorityQueue.AddAll
-//@   props C01 C05 C08 C17 C16
+//@   props C01 C05 C08 C17 C16 C07
 //@   assert [signal-after-bookkeeping] before call invoke.notifyToPullNextJobs: j.job.status == queued
 //@   requires q.externalBaseQueue != nil && q.externalBaseQueue.w != nil && q.internalQueue != nil && len(items) <= MaxUint32
 //@   modifies $usercalls, $alloc, $wgdone[0], $lenOf(q.internalQueue), $enq(q.internalQueue), $lastEnq(q.internalQueue), $lastEnqPrio(q.internalQueue), $submitted, $signals(q.externalBaseQueue.w), $acks, $lastAck
@@ -194,10 +203,13 @@ package varmq
 //@   ensures [signals]  $signals(q.externalBaseQueue.w) - old($signals(q.externalBaseQueue.w)) == $enq(q.internalQueue) - old($enq(q.internalQueue))
 //@   ensures [len]      $lenOf(q.internalQueue) - old($lenOf(q.internalQueue)) == $enq(q.internalQueue) - old($enq(q.internalQueue))
 //@   ensures [handle]   result == $mk(groupJob) && $fresh(groupJob)
+// Submitted counts exactly the accepted items of the batch (a rejected item is never counted, not even transiently kept)
+//@   ensures [submitted] $submitted($metricsOf(q.externalBaseQueue.w)) - old($submitted($metricsOf(q.externalBaseQueue.w))) == $enq(q.internalQueue) - old($enq(q.internalQueue))
 // every item gets a job configuration of its own: one id-generator call and one WithJobId application per item (never a shared or reused one)
 //@   ensures [own-config] $usercalls == old($usercalls) + 2 * len(items)
 //@   loop 1: invariant [range]  0 <= rangeindex + 1 && rangeindex + 1 <= len(items) && RI_Wgc(groupJob.wgc) && $fresh(groupJob) && $fresh(groupJob.wgc)
 //@   loop 1: invariant [own-config] $usercalls == old($usercalls) + 2 * (rangeindex + 1)
+//@   loop 1: invariant [submitted] $submitted($metricsOf(q.externalBaseQueue.w)) - old($submitted($metricsOf(q.externalBaseQueue.w))) == $enq(q.internalQueue) - old($enq(q.internalQueue))
 //@   loop 1: invariant [count]  ($enq(q.internalQueue) - old($enq(q.internalQueue))) + (len(items) - groupJob.wgc.count) == rangeindex + 1
 //@                                && $enq(q.internalQueue) >= old($enq(q.internalQueue)) && groupJob.wgc.count <= len(items)
 //@   loop 1: invariant [effect] $signals(q.externalBaseQueue.w) - old($signals(q.externalBaseQueue.w)) == $enq(q.internalQueue) - old($enq(q.internalQueue))
@@ -226,7 +238,7 @@ package varmq
 //@   ensures [fresh]    $fresh(j)
 
 //@ func errorPriorityQueue.AddAll
-//@   props C01 C05 C08 C17 C16
+//@   props C01 C05 C08 C17 C16 C07
 //@   assert [signal-after-bookkeeping] before call invoke.notifyToPullNextJobs: j.errorJob.job.status == queued
 //@   requires q.externalBaseQueue != nil && q.externalBaseQueue.w != nil && q.internalQueue != nil && len(items) <= MaxUint32
 //@   modifies $usercalls, $alloc, $wgdone[0], $lenOf(q.internalQueue), $enq(q.internalQueue), $lastEnq(q.internalQueue), $lastEnqPrio(q.internalQueue), $submitted, $signals(q.externalBaseQueue.w), $acks, $lastAck
@@ -234,11 +246,14 @@ package varmq
 //@   ensures [signals]  $signals(q.externalBaseQueue.w) - old($signals(q.externalBaseQueue.w)) == $enq(q.internalQueue) - old($enq(q.internalQueue))
 //@   ensures [len]      $lenOf(q.internalQueue) - old($lenOf(q.internalQueue)) == $enq(q.internalQueue) - old($enq(q.internalQueue))
 //@   ensures [handle]   result == $mk(groupJob) && $fresh(groupJob)
+// Submitted counts exactly the accepted items of the batch (a rejected item is never counted, not even transiently kept)
+//@   ensures [submitted] $submitted($metricsOf(q.externalBaseQueue.w)) - old($submitted($metricsOf(q.externalBaseQueue.w))) == $enq(q.internalQueue) - old($enq(q.internalQueue))
 // every item gets a job configuration of its own: one id-generator call and one WithJobId application per item (never a shared or reused one)
 //@   ensures [own-config] $usercalls == old($usercalls) + 2 * len(items)
 //@   ensures [stream]   len(items) > 0 ==> (groupJob.wgc.count >= 1 <==> $open(groupJob.errorJob.Response.ch))
 //@   loop 1: invariant [range]  0 <= rangeindex + 1 && rangeindex + 1 <= len(items) && RI_Wgc(groupJob.wgc) && $fresh(groupJob) && $fresh(groupJob.wgc)
 //@   loop 1: invariant [own-config] $usercalls == old($usercalls) + 2 * (rangeindex + 1)
+//@   loop 1: invariant [submitted] $submitted($metricsOf(q.externalBaseQueue.w)) - old($submitted($metricsOf(q.externalBaseQueue.w))) == $enq(q.internalQueue) - old($enq(q.internalQueue))
 //@   loop 1: invariant [count]  ($enq(q.internalQueue) - old($enq(q.internalQueue))) + (len(items) - groupJob.wgc.count) == rangeindex + 1
 //@                                && $enq(q.internalQueue) >= old($enq(q.internalQueue)) && groupJob.wgc.count <= len(items)
 //@   loop 1: invariant [effect] $signals(q.externalBaseQueue.w) - old($signals(q.externalBaseQueue.w)) == $enq(q.internalQueue) - old($enq(q.internalQueue))
@@ -268,7 +283,7 @@ package varmq
 //@   ensures [fresh]    $fresh(j)
 
 //@ func resultPriorityQueue.AddAll
-//@   props C01 C05 C08 C17 C16
+//@   props C01 C05 C08 C17 C16 C07
 //@   assert [signal-after-bookkeeping] before call invoke.notifyToPullNextJobs: j.resultJob.job.status == queued
 //@   requires q.externalBaseQueue != nil && q.externalBaseQueue.w != nil && q.internalQueue != nil && len(items) <= MaxUint32
 //@   modifies $usercalls, $alloc, $wgdone[0], $lenOf(q.internalQueue), $enq(q.internalQueue), $lastEnq(q.internalQueue), $lastEnqPrio(q.internalQueue), $submitted, $signals(q.externalBaseQueue.w), $acks, $lastAck
@@ -276,11 +291,14 @@ package varmq
 //@   ensures [signals]  $signals(q.externalBaseQueue.w) - old($signals(q.externalBaseQueue.w)) == $enq(q.internalQueue) - old($enq(q.internalQueue))
 //@   ensures [len]      $lenOf(q.internalQueue) - old($lenOf(q.internalQueue)) == $enq(q.internalQueue) - old($enq(q.internalQueue))
 //@   ensures [handle]   result == $mk(groupJob) && $fresh(groupJob)
+// Submitted counts exactly the accepted items of the batch (a rejected item is never counted, not even transiently kept)
+//@   ensures [submitted] $submitted($metricsOf(q.externalBaseQueue.w)) - old($submitted($metricsOf(q.externalBaseQueue.w))) == $enq(q.internalQueue) - old($enq(q.internalQueue))
 // every item gets a job configuration of its own: one id-generator call and one WithJobId application per item (never a shared or reused one)
 //@   ensures [own-config] $usercalls == old($usercalls) + 2 * len(items)
 //@   ensures [stream]   len(items) > 0 ==> (groupJob.wgc.count >= 1 <==> $open(groupJob.resultJob.Response.ch))
 //@   loop 1: invariant [range]  0 <= rangeindex + 1 && rangeindex + 1 <= len(items) && RI_Wgc(groupJob.wgc) && $fresh(groupJob) && $fresh(groupJob.wgc)
 //@   loop 1: invariant [own-config] $usercalls == old($usercalls) + 2 * (rangeindex + 1)
+//@   loop 1: invariant [submitted] $submitted($metricsOf(q.externalBaseQueue.w)) - old($submitted($metricsOf(q.externalBaseQueue.w))) == $enq(q.internalQueue) - old($enq(q.internalQueue))
 //@   loop 1: invariant [count]  ($enq(q.internalQueue) - old($enq(q.internalQueue))) + (len(items) - groupJob.wgc.count) == rangeindex + 1
 //@                                && $enq(q.internalQueue) >= old($enq(q.internalQueue)) && groupJob.wgc.count <= len(items)
 //@   loop 1: invariant [effect] $signals(q.externalBaseQueue.w) - old($signals(q.externalBaseQueue.w)) == $enq(q.internalQueue) - old($enq(q.internalQueue))
